@@ -98,7 +98,7 @@ bool send_all(NativeSocket socket, const char* data, std::size_t length) {
     return true;
 }
 
-bool recv_line(NativeSocket socket, std::string& line) {
+bool recv_line(NativeSocket socket, std::string& line, std::size_t limit, bool& too_long) {
     line.clear();
     char ch = 0;
     std::size_t count = 0;
@@ -116,7 +116,8 @@ bool recv_line(NativeSocket socket, std::string& line) {
         }
         if (ch != '\r') {
             line.push_back(ch);
-            if (++count > kMaxLineLength) {
+            if (++count > limit) {
+                too_long = true;
                 return false;
             }
         }
@@ -172,7 +173,11 @@ ControlResponse parse_response(NativeSocket socket, const ControlTransferProgres
     bool status_seen = false;
     std::optional<std::size_t> payload_length;
 
-    while (recv_line(socket, line)) {
+    // A field value travels on one line (the chunk list grows with the store), so a response line may be as long as the
+    // payload this client is prepared to accept; a longer one fails the request instead of silently losing fields.
+    const auto line_limit = std::max(kMaxLineLength, max_control_stream_bytes());
+    bool line_too_long = false;
+    while (recv_line(socket, line, line_limit, line_too_long)) {
         if (line.empty()) {
             break;
         }
@@ -201,6 +206,12 @@ ControlResponse parse_response(NativeSocket socket, const ControlTransferProgres
         } else {
             response.fields[key] = unescape_field_value(value);
         }
+    }
+
+    if (line_too_long) {
+        response.success = false;
+        response.fields["MESSAGE"] = "Response line exceeds client limit";
+        return response;
     }
 
     if (!status_seen) {
